@@ -47,7 +47,8 @@ def cmd_init(args):
         # Check if CSV has actual rules (not just header/comments)
         has_rules = False
         try:
-            with open(old_csv, 'r', encoding='utf-8') as f:
+            # utf-8-sig: a byte order mark in front of the header line is not a rule
+            with open(old_csv, 'r', encoding='utf-8-sig') as f:
                 for line in f:
                     line = line.strip()
                     if line and not line.startswith('#') and not line.startswith('Pattern,'):
